@@ -194,7 +194,8 @@ def _concurrent_case(case):
         from .. import preempt
         pre = preempt.Preempter(world.sim, prob=0.4, park_prob=0.2, park_max=0.1,
                                 funcs={'send', 'encode', 'encode_element', 'set_length',
-                                       'decode', '_fragments'})
+                                       'decode', '_fragments'},
+                                files=('dsutils.py',))
         pre.install()
         try:
             world.run(tmax=900)
